@@ -33,8 +33,18 @@ def run(out, tier, seed):
             f.write(json.dumps(c, separators=(",", ":")) + "\n")
             k += 1
             ncases += 1
+    # deeply nested data (the statement names it): values nested a few hundred / thousand levels deep, built through the data interface
+    # (pairs to the left and to the right, lists in lists, concatenations both ways, slices of slices), under every operation that walks data
+    DEEP = ["$ == $", "$ < $", "$ ~# \"\"", "$ ~# ( 1 2 )", "$ .|", "$ . 0", "( $ <> $ ) == $", "$ . :a", "( $ <~ ( 0 .. 1 ) ) == $", "( $ <> 5 ) .|", "( $ <> 5 ) . 3",
+            "( $ <> 5 ) ~# ( 1 2 )", "#$", "$ != ( $ 5 )", "$ ._", "_. $"]
+    with open(cases, "a") as f:
+        for kind in ("pairl", "pairr", "list", "concatl", "concatr", "slice"):
+            for depth in ((300,) if tier == "quick" else (300, 3000)):
+                for src in DEEP:
+                    f.write(json.dumps({"src": src, "input": {"t": "deep", "k": kind, "depth": depth}, "max_steps": 400, "tag": {"k": "deep"}}, separators=(",", ":")) + "\n")
+                    ncases += 1
     obs = os.path.join(wd, "obs.ndjson")
-    st = vlib.run_workers("run", cases, ncases, obs, timeout=25)
+    st = vlib.run_workers("run", cases, ncases, obs, timeout=25 if tier == "quick" else 60)
     fails, states, _ = vlib.validate(out.pid, "V_C07", obs, chunk=6000, workers=1)
     out.cov["states"] += states
     out.cov["evaluations"] = ncases
